@@ -19,11 +19,12 @@ extern "C" std::vector<double> __wrap__ZNK12WorldBuilder5World10propertiesERKSt5
   return r;
 }
 
-extern "C" void h_c09_map(unsigned long spherical_cs, unsigned long L)
+extern "C" void h_c09_map(unsigned long spherical_cs, unsigned long L, unsigned long kind0)
 {
   World *w = make_world(0, spherical_cs != 0);
   make_2d(w);
   const std::vector<Prop> props = make_request(static_cast<unsigned>(L), 2);
+  if (kind0) sym_assume(props[0][0] == kind0);        // case split over the first entry's kind
   const double depth = sym_f64("depth");
   const double x = sym_f64("x"), z = sym_f64("z");
   const std::array<double,2> p2 = {{x, z}};
